@@ -22,3 +22,4 @@
 ; introduced for three-element vectors from its elements, otherwise passed along unchanged.
 (declare-fun validVec ((Array Int Fp) Int Int) Bool)
 (assert (forall ((P (Array Int Fp)) (o Int)) (! (=> (and (validP (select P (+ o 0)) (select P (+ o 1)) (select P (+ o 2))) (validP (select P (+ o 3)) (select P (+ o 4)) (select P (+ o 5))) (validP (select P (+ o 6)) (select P (+ o 7)) (select P (+ o 8)))) (validVec P o 3)) :pattern ((validVec P o 3)))))
+(assert (forall ((P (Array Int Fp)) (o Int) (n Int)) (! (=> (forall ((k Int)) (=> (and (<= 0 k) (< k n)) (validP (select P (+ o (* 3 k) 0)) (select P (+ o (* 3 k) 1)) (select P (+ o (* 3 k) 2))))) (validVec P o n)) :pattern ((validVec P o n)))))
